@@ -25,7 +25,7 @@ for p in PROPS:
         "evidence_file": "evidence/%s.json" % pid,
         "replay_cmd_template": "python3 check.py replay {path}",
         "engine": "lean4-proof+correspondence",
-        "level_claimed": {"category": "proof", "text": text, "design_ref": "DESIGN.md section 6, " + pid},
+        "level_claimed": {"category": "proof", "text": text, "design_ref": "DESIGN.md Part I section C (theorems as proved) and Part II section 6, " + pid},
         "level_note": registry.LEVEL_NOTE.get(pid, registry.DEFAULT_NOTE),
         "technique": "Lean 4 theorems about an executable model (kernel-checked, axioms audited) + differential correspondence check model vs. real library (ASan/UBSan harness) on generated operation scripts",
     })
